@@ -398,6 +398,10 @@ def _time_us():
       st.tuples(st.sampled_from([1616893200, 1635642000]),
                 st.integers(-7200, 7200), st.integers(0, 999999)).map(
                     lambda t: (t[0] + t[1]) * 10 ** 6 + t[2]),
+      # before the epoch (imported historic data; a local-time zero in a
+      # zone ahead of UTC): negative seconds with a fractional part
+      st.integers(-10 ** 6 * 50 * 365 * 86400, -1),
+      st.sampled_from([-1, -500000, -999999, -1000001, -86400 * 10 ** 6 - 250000]),
       st.sampled_from([1600000000 * 10 ** 6 + 1, 1600000000 * 10 ** 6 + 999999,
                        1700000000 * 10 ** 6 + 500000,
                        1700000000 * 10 ** 6 + 123457]))
